@@ -854,3 +854,109 @@ Module CombinedExamples.
     apply andb_prop in H. destruct H as [H _]. lia.
   Qed.
 End CombinedExamples.
+
+(* ------------------------------------------------------------------ any number of combined sources *)
+Section CombineList.
+  Variable kn kd : Z.
+
+  (* the layer e can stand for the source m: same coverage, same SRS and format lists, and for this query the same
+     forwarded dimensions *)
+  Definition agrees (e m : wms_source) (q : query) : Prop :=
+    cov_eqb e m = true /\
+    dims_for_params (w_fwd e) (q_dims q) = dims_for_params (w_fwd m) (q_dims q) /\
+    list_eqb srs_eq (w_srs e) (w_srs m) = true /\
+    list_eqb (fun x y => f_id x =? f_id y) (w_fmts e) (w_fmts m) = true.
+
+  Definition group_ok (e : wms_source) (ms : list wms_source) (q : query) : Prop :=
+    (forall m, In m ms -> agrees e m q) /\
+    (ms = [e] \/ forall m, In m ms -> rr_blocks kn kd (w_rr m) q = false).
+
+  Lemma bbox_eqb_refl b : bbox_eqb b b = true.
+  Proof. destruct b as [[[a0 a1] a2] a3]. unfold bbox_eqb. lia. Qed.
+
+  Lemma agrees_refl e q : agrees e e q.
+  Proof.
+    unfold agrees. repeat split.
+    - unfold cov_eqb. destruct (w_cov e) as [[cb cs]|]; [|reflexivity].
+      unfold srs_eq. rewrite Z.eqb_refl, bbox_eqb_refl. cbn. destruct (w_geom e); [apply Z.eqb_refl|reflexivity].
+    - apply list_eqb_refl. intros x. unfold srs_eq. apply Z.eqb_refl.
+    - apply list_eqb_refl. intros x. apply Z.eqb_refl.
+  Qed.
+
+  Lemma agrees_combined e m q : agrees e m q -> agrees (combined e) m q.
+  Proof. unfold agrees, combined, cov_eqb. cbn. tauto. Qed.
+
+  Lemma compatible_agrees ok e n q : compatible kn kd ok e n q = true -> agrees e n q.
+  Proof.
+    unfold compatible, agrees. intros H.
+    apply andb_prop in H. destruct H as [H H7]. apply andb_prop in H. destruct H as [H H6].
+    apply andb_prop in H. destruct H as [H H5]. apply andb_prop in H. destruct H as [H H4].
+    repeat split; try assumption. apply list_eqb_dim_eq. exact H7.
+  Qed.
+
+  Lemma combine_from_inv rest : forall cur members q,
+    group_ok cur members q ->
+    forall e ms, In (e, ms) (combine_from kn kd cur members rest q) -> group_ok e ms q.
+  Proof.
+    induction rest as [|[ok n] r IH]; intros cur members q Hg e ms Hin; cbn [combine_from] in Hin.
+    - destruct Hin as [Hin|[]]. inversion Hin; subst. exact Hg.
+    - destruct (compatible kn kd ok cur n q) eqn:Ec.
+      + apply (IH (combined cur) (members ++ [n]) q); [|exact Hin].
+        destruct Hg as [Ha Hr]. pose proof (compatible_inv kn kd ok cur n q Ec) as (Hrc & Hrn & _).
+        split.
+        * intros m Hm. apply in_app_or in Hm. destruct Hm as [Hm|[<-|[]]].
+          -- apply agrees_combined. apply Ha. exact Hm.
+          -- apply agrees_combined. eapply compatible_agrees. exact Ec.
+        * right. intros m Hm. apply in_app_or in Hm. destruct Hm as [Hm|[<-|[]]]; [|exact Hrn].
+          destruct Hr as [->|Hr]; [|apply Hr; exact Hm]. destruct Hm as [<-|[]]. exact Hrc.
+      + destruct Hin as [Hin|Hin].
+        * inversion Hin; subst. exact Hg.
+        * apply (IH n [n] q); [|exact Hin]. split.
+          -- intros m [<-|[]]. apply agrees_refl.
+          -- left. reflexivity.
+  Qed.
+
+  (* every layer that combined_layers produces agrees with every source it stands for, and a layer that stands for
+     more than one source only exists when none of their resolution ranges excludes the request *)
+  Lemma combine_layers_group_ok first rest q e ms :
+    In (e, ms) (combine_layers kn kd first rest q) -> group_ok e ms q.
+  Proof.
+    unfold combine_layers. apply combine_from_inv. split.
+    - intros m [<-|[]]. apply agrees_refl.
+    - left. reflexivity.
+  Qed.
+
+  Lemma render_pair_is_render_list T GI GC ok a b q :
+    render_pair T kn kd GI GC ok a b q = render_list T kn kd GI GC a [(ok, b)] q.
+  Proof.
+    unfold render_pair, render_list, combine_layers. cbn [combine_from].
+    destruct (compatible kn kd ok a b q); reflexivity.
+  Qed.
+End CombineList.
+
+(* a layer that agrees with a source has the same coverage extent and geometry *)
+Lemma agrees_coverage e m q cb cs :
+  agrees e m q -> w_cov e = Some (cb, cs) ->
+  exists cs', w_cov m = Some (cb, cs') /\ srs_eq cs cs' = true /\ w_geom e = w_geom m.
+Proof.
+  intros (Hc & _) He. unfold cov_eqb in Hc. rewrite He in Hc. destruct (w_cov m) as [[cb' cs']|]; [|discriminate].
+  apply andb_prop in Hc. destruct Hc as [Hc Hg]. apply andb_prop in Hc. destruct Hc as [Es Eb].
+  apply bbox_eqb_eq in Eb. subst cb'. exists cs'. split; [reflexivity|]. split; [exact Es|].
+  destruct (w_geom e) as [g|]; destruct (w_geom m) as [g'|]; try discriminate; [|reflexivity].
+  f_equal. lia.
+Qed.
+
+(* format negotiation on the reprojection path: when no supported SRS equals the SRS of the query, the request
+   is sent in an element of supported_srs and in the negotiated format *)
+Lemma reprojected_request T kn kd GI GC src q r :
+  wms_get_map T kn kd GI GC src q = Request r -> w_srs src <> [] ->
+  find (fun s => srs_eq (q_srs q) s) (w_srs src) = None ->
+  In (r_srs r) (w_srs src) /\ r_fmt r = choose_format src q /\
+  (w_fmts src <> [] -> exists e, In e (w_fmts src) /\ (r_fmt r = e \/ fmt_match (r_fmt r) e = true)).
+Proof.
+  intros H Hne Hf. pose proof (wms_request_inv _ _ _ _ _ _ _ _ H) as (_ & _ & Hfmt & _ & Ho & _).
+  split; [|split; [exact Hfmt|]].
+  - destruct Ho as [[He _]|[(s & Hs & _)|(_ & _ & Hp)]]; [congruence|congruence|].
+    apply (preferred_src_in T kn GI GC _ _ _ _ Hp).
+  - intros Hn. rewrite Hfmt. apply choose_format_supported. exact Hn.
+Qed.
